@@ -325,31 +325,34 @@ static void doPfok(const vx_cmd* c)
 /* ------------------------------------------------------------------ gf2: trace and quadratic solver on a complete small field */
 static void doGf2(const vx_cmd* c)
 {
-	unsigned long long ff[4] = {0, 0, 0, 0}; const char* v = vxArg(c, "f"); size_t i = 0, m, n, p[4]; qr_o* f; void* st; size_t sd;
+	/* the library builds GF(2^m) only for m - k >= B_PER_W: no complete small field; structured and seeded elements instead */
+	unsigned long long ff[4] = {0, 0, 0, 0}; const char* v = vxArg(c, "f"); size_t i = 0, m, n, no, p[4], cnt = (size_t)vxInt(c, "cnt", 16), j; qr_o* f; void* st; size_t sd;
 	while (v && *v && i < 4) { ff[i++] = strtoull(v, (char**)&v, 10); if (*v == ',') ++v; }
 	for (i = 0; i < 4; ++i) p[i] = (size_t)ff[i];
-	m = p[0]; n = W_OF_B(m);
+	m = p[0]; n = W_OF_B(m); no = O_OF_B(m);
+	if (m < 2 || m > 600) { jInt("rc", -2); return; }
 	f = (qr_o*)xalloc(gf2Create_keep(m)); st = xalloc(gf2Create_deep(m));
-	if (m < 2 || m > 16 || !gf2Create(f, p, st)) { jInt("rc", -1); free(st); free(f); return; }
+	if (!gf2Create(f, p, st)) { jInt("rc", -1); free(st); free(f); return; }
 	free(st);
 	sd = utilMax(2, gf2Tr_deep(n, f->deep), gf2QSolve_deep(n, f->deep)); st = xalloc(sd);
 	jInt("rc", 0);
+	vxSeed(vxEnvSeed() * 31 + m);
+	jSep(); fprintf(vx_out, "\"els\":[");
+	for (j = 0; j < cnt + 5; ++j)
 	{
-		size_t x, cnt = (size_t)1 << m; word* a = (word*)xalloc(O_OF_W(n)); word* z = (word*)xalloc(O_OF_W(n)); word* one = (word*)xalloc(O_OF_W(n));
-		one[0] = 1;
-		jSep(); fprintf(vx_out, "\"tr\":[");
-		for (x = 0; x < cnt; ++x) { a[0] = (word)x; fprintf(vx_out, x ? ",%d" : "%d", gf2Tr(a, f, st) ? 1 : 0); }
-		fputc(']', vx_out);
-		/* z^2 + z = x: solvable?, solution */
-		jSep(); fprintf(vx_out, "\"qs\":[");
-		for (x = 0; x < cnt; ++x)
-		{
-			int ok; a[0] = (word)x; z[0] = 0; ok = (m % 2) ? gf2QSolve(z, one, a, f, st) : 0;
-			fprintf(vx_out, x ? ",%lld" : "%lld", ok ? (long long)z[0] : -1ll);
-		}
-		fputc(']', vx_out);
-		free(one); free(z); free(a);
+		octet* xo = (octet*)xalloc(no); word* a = (word*)xalloc(O_OF_W(n)); word* z = (word*)xalloc(O_OF_W(n)); word* one = (word*)xalloc(O_OF_W(n));
+		octet* zo = (octet*)xalloc(no); int tr, ok;
+		if (j == 1) xo[0] = 1; else if (j == 2) xo[0] = 2; else if (j == 3) xo[(m - 1) / 8] = (octet)(1 << ((m - 1) % 8));
+		else if (j == 4) { memset(xo, 255, no); if (m % 8) xo[no - 1] = (octet)((1 << (m % 8)) - 1); }
+		else if (j >= 5) { vxRandBuf(xo, no); if (m % 8) xo[no - 1] &= (octet)((1 << (m % 8)) - 1); }
+		wwFrom(a, xo, no); one[0] = 1;
+		tr = gf2Tr(a, f, st) ? 1 : 0;
+		ok = (m % 2) ? gf2QSolve(z, one, a, f, st) : 0;
+		wwTo(zo, no, z);
+		fprintf(vx_out, "%s{\"tr\":%d,\"ok\":%d", j ? "," : "", tr, ok); vx_first = 0; jOct("x", xo, no); jOct("z", zo, no); fputc('}', vx_out);
+		free(zo); free(one); free(z); free(a); free(xo);
 	}
+	fputc(']', vx_out);
 	free(st); free(f);
 }
 
